@@ -1,6 +1,7 @@
 import DispatchVerif.Core.SuspendP
 import DispatchVerif.Core.ActP
 import DispatchVerif.Generated.Consts
+import DispatchVerif.Core.FinishW
 /-! # C06 — inactive and suspended queues run nothing; resume restarts them
 
 Two models of the suspension part of `dq_state`, for any number of threads racing suspend / resume / activate:
@@ -34,6 +35,30 @@ theorem inactive_blocked_iff {s : ActP.St} (h : ActP.Reachable s) :
 theorem activation_count_exact {s : ActP.St} (h : ActP.Reachable s) :
     s.sh.n = s.sh.logical + (if s.sh.holder.isSome then 1 else 0) :=
   ActP.count_exact h
+
+/-! ## after the last resume: who re-drives the queue
+
+`_dispatch_lane_resume` does not wake a queue whose drain lock is held; it sets DIRTY and leaves the re-drive to the lock
+holder. That is sound because of what the lock holder writes when it leaves (`_dispatch_queue_invoke_finish`): the decision
+"runnable and not enqueued ⇒ put ENQUEUED back" is taken on the very word being written. -/
+
+/-- **a drainer that leaves a queue never writes a runnable, not-enqueued word** — for every old word, every owned amount,
+    both enqueue flavours (word-level model over the generated constants; each such compare-and-swap of the real library is
+    replayed through it) -/
+theorem drainer_leaves_runnable_queue_enqueued (old owned enq : Nat)
+    (he : enq = Gen.DISPATCH_QUEUE_ENQUEUED ∨ enq = Gen.DISPATCH_QUEUE_ENQUEUED_ON_MGR)
+    (hr : FinishW.runnable (FinishW.invokeFinishW old owned enq) = true) :
+    FinishW.enqueued (FinishW.invokeFinishW old owned enq) = true :=
+  FinishW.finish_runnable_enqueued old owned enq he hr
+
+/-- … and always sets DIRTY (bit 39), so whoever locks next looks at the list again -/
+theorem drainer_leaves_dirty (old owned enq : Nat) : (FinishW.invokeFinishW old owned enq).testBit 39 = true :=
+  FinishW.finish_sets_dirty old owned enq
+
+/-- non-vacuity: a serial queue word as the drainer sees it after the last resume landed (drain-locked by thread 0x1234, in
+    barrier, DIRTY set by the resume, one item pending): the word written is runnable and carries ENQUEUED -/
+example : FinishW.runnable (FinishW.invokeFinishW (0x0060008000001234) 0x0040020000000000 Gen.DISPATCH_QUEUE_ENQUEUED) = true ∧
+    FinishW.enqueued (FinishW.invokeFinishW (0x0060008000001234) 0x0040020000000000 Gen.DISPATCH_QUEUE_ENQUEUED) = true := by decide
 
 /-- the constants the models use are the ones of the headers on this run -/
 theorem consts : SuspendP.HALF = Gen.DISPATCH_QUEUE_SUSPEND_HALF ∧
